@@ -237,9 +237,32 @@ class World:
         del self.hot[:-6]
         return h
 
+    def remember_entities(self):
+        """An application fetches entities now and may write them (much) later: keep copies of a few, hot ones preferred."""
+        r = self.rng
+        m = self.mdib
+        pool = self.descr_handles(lambda d: d.parent_handle is not None)
+        for _ in range(2):
+            if not pool:
+                return
+            hot = [h for h in self.hot if h in pool]
+            h = r.choice(hot) if (hot and r.random() < 0.6) else r.choice(pool)
+            try:
+                ent = m.entities.by_handle(h)
+            except KeyError:
+                continue
+            if ent is None:
+                continue
+            if ent.is_multi_state:
+                self.stale_entities[h] = type(ent)(m, copy.deepcopy(ent.descriptor), copy.deepcopy(list(ent.states.values())))
+            else:
+                self.stale_entities[h] = type(ent)(m, copy.deepcopy(ent.descriptor), copy.deepcopy(ent.state))
+
     # ---------------- script generation (type/state directed, 80 % enabled ops)
     def gen_script(self):
         r = self.rng
+        if r.random() < 0.3:
+            self.remember_entities()
         x = r.random()
         tx = 'S' if x < 0.5 else ('C' if x < 0.7 else 'D')
         script = {'tx': tx, 'catch': r.random() < 0.15, 'raise': r.random() < 0.12, 'calls': []}
@@ -351,8 +374,13 @@ class World:
             elif z < 0.92 and alld:
                 # entity interface: write an existing entity (single or multi state), possibly dropping / adding a context state
                 cds = self.descr_handles(lambda d: d.is_context_descriptor)
-                stale = r.random() < 0.35
-                if cds and r.random() < 0.4:
+                stale = r.random() < 0.45
+                have = [h for h in self.stale_entities if h in alld]
+                if stale and have:
+                    h = r.choice(have)
+                    how = r.choice(['keep', 'drop', 'add']) if h in cds else 'keep'
+                    script['calls'].append(['writeEntity', h, r.randrange(1000), how, True])
+                elif cds and r.random() < 0.4:
                     script['calls'].append(['writeEntity', self.pick(cds), r.randrange(1000), r.choice(['keep', 'drop', 'add']), stale])
                 elif templates:
                     script['calls'].append(['writeEntity', self.pick(templates), r.randrange(1000), 'keep', stale])
